@@ -39,6 +39,7 @@ FUNCS = {
     "<func>rev": ("arr->arr", lambda a: np.asarray(a)[::-1].copy()),
     "<func>total": ("arr->num", lambda a: float(np.asarray(a).sum())),
     "<func>isbig": ("num->bool", lambda x: bool(x > 2)),
+    "<func>nloop": ("num->int", lambda x: 2),
 }
 
 
@@ -494,6 +495,10 @@ class ScriptGen:
                     if self.bnd_val[n] == lo_v and t.chance(0.3, "lovar"):
                         lo_e = Var(n)
                         break
+            if F.calls and hi_v == 2 and isinstance(hi_e, Const) and t.chance(0.35, "hicall"):
+                # the upper bound is computed by a user function (which may fail)
+                hi_e = self.ucall("<func>nloop", [self.g_num(D, 0)])
+            if F.var_bounds:
                 if isinstance(hi_e, Const) and arr_n is not None and hi_v == arr_n and F.builtins \
                         and t.chance(0.2, "hilen") and self.arrs(D, arr_n):
                     hi_e = Call("<builtin>len", [Var(self.pick(self.arrs(D, arr_n), "la"))])
